@@ -23,7 +23,7 @@ Definition enc_event (e : event) : list nat :=
   | EWrite n => [5; n]
   | EReply u n => [6; u; n]
   | ESwap => [7]
-  | EStart c => [8; c]
+  | EStart c h => [8; c; lcode h]
   end.
 
 Fixpoint nl_eqb (a b : list nat) : bool :=
@@ -67,8 +67,10 @@ Definition model_trace (c : lcase) (sgl : bool) : list (nat * list nat) :=
 (** ** the property on an observed trace: the judge of [model/LocksSpec.v], which is
     proved to accept every trace of the model ([C14_trace_accepted]) *)
 
+(** any lock other than the thread lock is read as "the shared lock" (a second, third ...
+    lock object cannot equal the model's trace — code 1 — but the observation is still judged) *)
 Definition dec_lref (n : nat) : option lref :=
-  match n with 0 => Some LT | 1 => Some LM | _ => None end.
+  match n with 0 => Some LT | _ => Some LM end.
 
 Definition dec_event (l : list nat) : option event :=
   match l with
@@ -79,7 +81,7 @@ Definition dec_event (l : list nat) : option event :=
   | [5; n] => Some (EWrite n)
   | [6; u; n] => Some (EReply u n)
   | [7] => Some ESwap
-  | [8; c] => Some (EStart c)
+  | [8; c; k] => option_map (EStart c) (dec_lref k)
   | _ => None
   end.
 
